@@ -245,6 +245,7 @@ func c12OneHistory(rep *childReport, seed int64, idx int) {
 	}()
 
 	var accepted atomic.Int64 // accepted inserts + accepted feedbacks
+	var rebuilt atomic.Int64  // operations issued through a rebuilt object with the tracked id
 	var clients sync.WaitGroup
 	client := 0
 	unknownStored := func(id string) {
@@ -310,6 +311,12 @@ func c12OneHistory(rep *childReport, seed int64, idx int) {
 						}()
 						pair.Wait()
 						continue
+					}
+					if wr.Intn(5) == 0 {
+						// the reactor's interface identifies a seed by its id (ReceiveFeedback replaces the tracked object by
+						// whichever object carries the id): act through a rebuilt object, as a client that re-creates the seed would
+						it = c12Item(id)
+						rebuilt.Add(1)
 					}
 					if wr.Intn(10) < 4 {
 						if h.do(cid, c12In{"feedback", id}, func() string { return c12Err(reactor.ReceiveFeedback(it)) }) == "ok" {
@@ -442,6 +449,7 @@ func c12OneHistory(rep *childReport, seed int64, idx int) {
 	rep.Evaluations++
 	rep.event("ops", len(h.ops))
 	rep.event("deliveries", int(deliveredTotal.Load()))
+	rep.event("ops_through_rebuilt_object", int(rebuilt.Load()))
 	kinds := map[string]int{}
 	overlap := 0
 	for i, op := range h.ops {
